@@ -40,8 +40,42 @@ var hostile = []string{
 }
 
 func genC10(t *rapid.T) (crashCase, bool, []string) {
-	mode := pick(t, "mode", "illtyped", "illtyped", "illtyped", "stdlib", "stdlib", "bytes", "bytes", "values", "seqfn", "seqfn", "edit-chain", "edit-chain")
+	mode := pick(t, "mode", "illtyped", "illtyped", "illtyped", "stdlib", "stdlib", "bytes", "bytes", "values", "seqfn", "seqfn", "edit-chain", "edit-chain", "xstr")
 	switch mode {
+	case "xstr":
+		// expression strings: ${expr:format:delimiter:tail} with values of every kind
+		g := gcfg{quotedNames: true}
+		r := newRenderer(t)
+		quote := pick(t, "quote", `"`, `"`, "'", "`")
+		var sb strings.Builder
+		sb.WriteString("$" + quote)
+		classes := []string{"mode:xstr"}
+		for i, n := 0, rapid.IntRange(1, 3).Draw(t, "parts"); i < n; i++ {
+			if chance(t, "text", 40) {
+				sb.WriteString(pick(t, "text", "a", " ", "\n", "\n  ", "x: ", "}", "$", "\\", ":", "  b\n c"))
+				continue
+			}
+			var expr string
+			if chance(t, "smallexpr", 50) {
+				expr = pick(t, "expr", "1", "1.5", `'a'`, "[1, 2]", `['a', 'b']`, "{}", "(a: 1)", "[[1], [2]]", "[]", "{1, 2}", "[1, , 3]", "2\\[1]", `{'a': 1}`, "<<97>>", "true", "\\x x", "//math.pi", "['a\nb', 'c']")
+			} else {
+				expr = r.lit(g.genVal(t, 2))
+			}
+			format := pick(t, "format", "", "", "s", "d", "q", "v", "03d", ".2f", "x", "t", "c", "5s", "-5s", "+d", "#x", "g", "o", "U", "e")
+			ctl := ""
+			switch pick(t, "ctl", "none", "format", "delim", "delim", "tail") {
+			case "format":
+				ctl = ":" + format
+			case "delim":
+				ctl = ":" + format + ":" + pick(t, "delim", "", ",", ", ", "\\n", "\\i", "-")
+			case "tail":
+				ctl = ":" + format + ":" + pick(t, "delim", "", ",", "\\n") + ":" + pick(t, "tail", "", "x", "\\n")
+			}
+			classes = append(classes, "ctl:"+strings.Trim(ctl, ":"))
+			sb.WriteString("${" + expr + ctl + "}")
+		}
+		sb.WriteString(quote)
+		return crashCase{Src: sb.String(), Mode: mode}, true, classes
 	case "seqfn":
 		// sequence functions on related arguments: each argument is a one-step
 		// edit of the previous one (tail, init, one more at either end, same, empty)
